@@ -178,16 +178,17 @@ type seg struct {
 }
 
 type StreamConn struct {
-	n      *Net
-	ID     int
-	Role   string // "srv" / "cli"
-	rx, tx *half
-	rdl    time.Time
-	wdl    time.Time
-	closed bool
-	local  Addr
-	remote Addr
-	Peer   *StreamConn
+	lingerZero bool // SetLinger(0) was called: Close aborts
+	n          *Net
+	ID         int
+	Role       string // "srv" / "cli"
+	rx, tx     *half
+	rdl        time.Time
+	wdl        time.Time
+	closed     bool
+	local      Addr
+	remote     Addr
+	Peer       *StreamConn
 
 	Reads      int
 	ReadTotal  int // octets handed to the reader so far
@@ -532,6 +533,12 @@ func (c *StreamConn) Close() error {
 	c.closed = true
 	k.EffectLocked("close #" + strconv.Itoa(c.ID))
 	c.rx.rclosed = true
+	if c.lingerZero {
+		// SO_LINGER 0: the close is an abort - the peer sees a reset, what had not reached it yet is gone
+		c.tx.cut, c.tx.rst, c.tx.buf = true, true, nil
+		k.BumpLocked("fault.close_with_linger_zero")
+		return nil
+	}
 	if !c.tx.weof {
 		c.tx.weof = true
 		t := time.Now()
@@ -543,6 +550,33 @@ func (c *StreamConn) Close() error {
 	}
 	return nil
 }
+
+// The TCP-only knobs of *net.TCPConn (the instrumented copy of the library sees an
+// interface where it says *net.TCPConn, so that a simulated connection can take
+// that branch of a changed tree).
+
+//go:norace
+func (c *StreamConn) SetLinger(sec int) error {
+	c.n.K.Lock()
+	c.lingerZero = sec == 0
+	c.n.K.Unlock()
+	return nil
+}
+
+//go:norace
+func (c *StreamConn) SetNoDelay(bool) error { return nil }
+
+//go:norace
+func (c *StreamConn) SetKeepAlive(bool) error { return nil }
+
+//go:norace
+func (c *StreamConn) SetKeepAlivePeriod(time.Duration) error { return nil }
+
+//go:norace
+func (c *StreamConn) SetReadBuffer(int) error { return nil }
+
+//go:norace
+func (c *StreamConn) SetWriteBuffer(int) error { return nil }
 
 // Reset aborts the connection from c's side: the peer sees RST, octets in
 // flight are lost.
